@@ -209,7 +209,7 @@ fn window_case(rec: &mut Rec, _ctx: &Ctx, idx: u64, rng: &mut ChaCha20Rng) {
 }
 
 pub fn run(ctx: &Ctx) -> Rec {
-  let mut rec = par_run(ctx, "xor", ctx.n(3000, 120_000), |rec, i, rng| xor_case(rec, ctx, i, rng));
-  rec.merge(par_run(ctx, "window", ctx.n(400, 12_000), |rec, i, rng| window_case(rec, ctx, i, rng)));
+  let mut rec = par_run(ctx, "xor", ctx.n(3000, 1_000_000), |rec, i, rng| xor_case(rec, ctx, i, rng));
+  rec.merge(par_run(ctx, "window", ctx.n(400, 100_000), |rec, i, rng| window_case(rec, ctx, i, rng)));
   rec
 }
